@@ -53,4 +53,66 @@ theorem teeRun_aux (chunks : List Bytes) (t : Tee) :
   | nil => simp
   | cons c cs ih => simp [ih, teeWrite, List.append_assoc]
 
+/-! ### short-writing targets -/
+
+/-- whatever the target's short-write / interrupt behaviour, `write_all` leaves it holding its previous content
+followed by the whole buffer -/
+theorem writeAll_content (script : List Nat) : ∀ (got buf : Bytes), (writeAll script got buf).1 = got ++ buf := by
+  induction script with
+  | nil => intro got buf; cases buf <;> simp [writeAll]
+  | cons k rest ih =>
+    intro got buf
+    cases buf with
+    | nil => simp [writeAll]
+    | cons b bs =>
+      cases k with
+      | zero => simp only [writeAll]; exact ih got (b :: bs)
+      | succ k =>
+        simp only [writeAll]
+        rw [ih, List.append_assoc, List.take_append_drop]
+
+theorem teeRunS_aux (chunks : List Bytes) (t : TeeS) :
+    (chunks.foldl teeWriteS t).a = t.a ++ chunks.flatten ∧ (chunks.foldl teeWriteS t).b = t.b ++ chunks.flatten := by
+  induction chunks generalizing t with
+  | nil => simp
+  | cons c cs ih =>
+    simp only [List.foldl_cons, List.flatten_cons]
+    have ha : (teeWriteS t c).a = t.a ++ c := by simp [teeWriteS, writeAll_content]
+    have hb : (teeWriteS t c).b = t.b ++ c := by simp [teeWriteS, writeAll_content]
+    have := ih (teeWriteS t c)
+    rw [ha, hb] at this
+    simpa [List.append_assoc] using this
+
+theorem stepByteS_sim (m : Nat) (f : Bytes → Bytes) (s : StS) (b : Nat) :
+    (stepByteS m f s b).buf = (stepByte m f ⟨s.buf, s.out⟩ b).buf ∧
+    (stepByteS m f s b).out = (stepByte m f ⟨s.buf, s.out⟩ b).out := by
+  unfold stepByteS stepByte
+  by_cases hb : b = m <;> simp [hb, writeAll_content]
+
+theorem writeS_sim (m : Nat) (f : Bytes → Bytes) (chunk : Bytes) : ∀ (s : StS),
+    (writeS m f s chunk).buf = (write m f ⟨s.buf, s.out⟩ chunk).buf ∧
+    (writeS m f s chunk).out = (write m f ⟨s.buf, s.out⟩ chunk).out := by
+  induction chunk with
+  | nil => intro s; simp [writeS, write]
+  | cons b bs ih =>
+    intro s
+    have h := stepByteS_sim m f s b
+    have := ih (stepByteS m f s b)
+    simp only [writeS, write, List.foldl_cons] at this ⊢
+    rw [h.1, h.2] at this
+    exact this
+
+theorem foldl_writeS_sim (m : Nat) (f : Bytes → Bytes) (chunks : List Bytes) : ∀ (s : StS),
+    (chunks.foldl (writeS m f) s).buf = (chunks.foldl (write m f) ⟨s.buf, s.out⟩).buf ∧
+    (chunks.foldl (writeS m f) s).out = (chunks.foldl (write m f) ⟨s.buf, s.out⟩).out := by
+  induction chunks with
+  | nil => intro s; simp
+  | cons c cs ih =>
+    intro s
+    have h := writeS_sim m f c s
+    have := ih (writeS m f s c)
+    simp only [List.foldl_cons]
+    rw [h.1, h.2] at this
+    exact this
+
 end CnbVerif.MW
